@@ -8,6 +8,7 @@ package jsonschema
 import (
 	"hash/maphash"
 	"reflect"
+	"slices"
 )
 
 // ---- accessors to unexported functions (native replay and translator validation)
@@ -402,4 +403,70 @@ func VerifKernelPropertyOrder(pa, pb, pc, pd bool, order string) bool {
 	}
 	exp += "}"
 	return got == want && string(bs) == exp
+}
+
+// ---- C14: what Resolve computed, in a canonical rendering
+
+// verifOrdersOff is intercepted by the engine: from here on map ranges are no longer
+// forked over iteration orders (the rendering below is order-independent by construction).
+func verifOrdersOff() {}
+
+// VerifResolveSummary resolves s and renders every result of resolution that Validate
+// consults (bases, URIs, $ref / $dynamicRef targets, anchors, the URI table) keyed by the
+// JSON Pointer path of each subschema. A function of s alone if Resolve is deterministic.
+func VerifResolveSummary(s *Schema) string {
+	rs, err := s.Resolve(nil)
+	verifOrdersOff()
+	if err != nil {
+		return "error"
+	}
+	pathOf := func(t *Schema) string {
+		if t == nil {
+			return "-"
+		}
+		if info := rs.resolvedInfos[t]; info != nil {
+			return "@" + info.path
+		}
+		return "?"
+	}
+	var lines []string
+	for t := range s.all() {
+		info := rs.resolvedInfos[t]
+		if info == nil {
+			lines = append(lines, "missing-info")
+			continue
+		}
+		l := info.path + " base=" + pathOf(info.base)
+		if info.uri != nil {
+			l += " uri=" + info.uri.String()
+		}
+		l += " ref=" + pathOf(info.resolvedRef) + " dynref=" + pathOf(info.resolvedDynamicRef) + " dynanchor=" + info.dynamicRefAnchor
+		var as []string
+		for name, a := range info.anchors {
+			d := "plain"
+			if a.dynamic {
+				d = "dynamic"
+			}
+			as = append(as, name+":"+d+":"+pathOf(a.schema))
+		}
+		slices.Sort(as)
+		for _, a := range as {
+			l += " anchor=" + a
+		}
+		lines = append(lines, l)
+	}
+	var us []string
+	for u, t := range rs.resolvedURIs {
+		us = append(us, "uri "+u+" -> "+pathOf(t))
+	}
+	slices.Sort(us)
+	slices.Sort(lines)
+	out := ""
+	for _, l := range lines {
+		out += l + "\n"
+	}
+	for _, l := range us {
+		out += l + "\n"
+	}
+	return out
 }
